@@ -161,6 +161,9 @@ func replay(args map[string]string) error {
 						} else {
 							c.Schedulers = config.SchedulerConfigs{{Type: "no-such-scheduler"}}
 						}
+					case "i8":
+						// an unregistered type is out of the domain whether or not the entry is switched off
+						c.Schedulers = append(append(config.SchedulerConfigs{}, c.Schedulers...), config.SchedulerConfig{Type: "no-such-scheduler", Disable: true})
 					}
 					call = func() error { return s.SetScheduleConfig(c) }
 					if si%2 == 0 && val != "v2" && val != "v4" && val != "v5" && val != "v6" && val != "i3" && val != "i4" && val != "i7" {
@@ -176,7 +179,7 @@ func replay(args map[string]string) error {
 							body["high-space-ratio"] = c.HighSpaceRatio
 						case "v3", "i5":
 							body["tolerant-size-ratio"] = c.TolerantSizeRatio
-						case "i6":
+						case "i6", "i8":
 							body["schedulers-v2"] = c.Schedulers
 						}
 						ev["via"] = "http"
